@@ -57,7 +57,7 @@ func (c *Ctx) eofTermination(rule string, pkgs ...string) {
 	it := absint.New(cfg)
 	var fns []*ssa.Function
 	for _, f := range c.P.Funcs {
-		if isInstance(f) || f.Parent() != nil {
+		if f.Parent() != nil {
 			continue
 		}
 		if own[engine.RelPkg(P.OwnPkgPath(f))] {
@@ -76,9 +76,6 @@ func (c *Ctx) eofTermination(rule string, pkgs ...string) {
 	loops := 0
 	var all []*ssa.Function
 	for _, f := range c.P.Funcs {
-		if isInstance(f) {
-			continue
-		}
 		if own[engine.RelPkg(P.OwnPkgPath(f))] {
 			all = append(all, f)
 		}
